@@ -99,7 +99,8 @@ class ReservedCfdpMessage(AbstractTlvBase):
     """
 
     def __init__(self, msg_type: int, value: bytes):
-        assert msg_type < pow(2, 8) - 1
+        if msg_type < 0 or msg_type > pow(2, 8) - 1:
+            raise ValueError(f"reserved CFDP message type {msg_type} does not fit one octet")
         full_value = bytearray("cfdp".encode())
         full_value.append(msg_type)
         full_value.extend(value)
